@@ -215,7 +215,9 @@ func (r *runner) strExhaustive() {
 		e.call("string.char", ia(b))
 		e.call("string.byte", sa(string([]byte{byte(b)})))
 	}
-	r.c.Feature("enumerated", int64(e.idx))
+	if r.c.Batch == 0 {
+		r.c.Feature("enumerated", int64(e.idx))
+	}
 }
 
 // ---------------------------------------------------------------------------
@@ -259,6 +261,16 @@ func (r *runner) tabExhaustive() {
 		n := int64(len(st.M))
 		vars := []variant{{kPlain, n}, {kNoLen, 0}}
 		for _, k := range []int{kFnProxy, kTabProxy, kChain} {
+			if !r.c.Thorough() && k != kFnProxy {
+				// quick tier: one __len per table-valued proxy kind
+				// (honest for tabproxy, one too long for chainproxy)
+				L := n
+				if k == kChain {
+					L = n + 1
+				}
+				vars = append(vars, variant{k, L})
+				continue
+			}
 			vars = append(vars, variant{k, n}, variant{k, n + 1})
 			if n > 0 {
 				vars = append(vars, variant{k, n - 1})
@@ -326,6 +338,9 @@ func (r *runner) tabExhaustive() {
 		for _, kind := range []int{kPlain, kFnProxy, kTabProxy} {
 			for dv := 0; dv < 4; dv++ {
 				if kind != kPlain && dv == 1 {
+					continue
+				}
+				if !r.c.Thorough() && kind == kTabProxy && dv != 0 {
 					continue
 				}
 				T := []TabSpec{specOf(st, kind, n)}
@@ -439,7 +454,9 @@ func (r *runner) tabExhaustive() {
 			e.r.run(&Case{Fn: fn, Args: []Arg{sc(sm.NilV), ia(1), ia(1), ia(1)}})
 		}
 	}
-	r.c.Feature("enumerated", int64(e.idx))
+	if r.c.Batch == 0 {
+		r.c.Feature("enumerated", int64(e.idx))
+	}
 }
 
 // ---------------------------------------------------------------------------
@@ -490,8 +507,8 @@ func randElem(rd *rand.Rand, tag int) sm.V {
 
 func (r *runner) random() {
 	rd := r.c.Rand("random")
-	n := r.c.Pick(160000, 4000000) / r.c.NB
-	r.cpu = 200000
+	n := r.c.Pick(100000, 4000000) / r.c.NB
+	r.cpu = 60000
 	for it := 0; it < n; it++ {
 		var cs Case
 		switch rd.Intn(14) {
